@@ -91,7 +91,9 @@ def render(c, key, seed_shape):
         pre = f"{al} = " if al else ""
         dargs.append(pre + d)
         rargs.append(pre + r)
-    attr = f"#[{ATTR[D]}({vlib.rust_lit(lit)}" + "".join(", " + x for x in dargs) + ")]"
+    # (a third of the argument lists end with a comma, as format_args! allows: the derive's own additions go after it)
+    tc = "," if (dargs and vlib.seeded_pick(lit + "|".join(dargs), 59, 3) == 0) else ""
+    attr = f"#[{ATTR[D]}({vlib.rust_lit(lit)}" + "".join(", " + x for x in dargs) + tc + ")]"
     companion = None
     if shape == "variant":
         # an attribute-less single-field variant FOLLOWS the attributed one: it prints as its field does (Debug: as std)
